@@ -174,9 +174,63 @@ def eval_two_append(case, chk):
     return vd
 
 
+def build_main_and_end(r, tier):
+    """One redirected statement, in a subroutine or function, used from the main block for every record and once more
+    from the end block: the target is one document - everything routed to it, the end block's part last."""
+    n = r.choice([1, 2, 5, 12, 40, 600])
+    recs = [[("k", "k1"), ("id", str(i + 1)), ("v", r.choice(gen.VOCAB_A)), ("w", str(r.randint(0, 999)))] for i in range(n)]
+    redir, tgt, name = r.choice([(">", "\"me.out\"", "me.out"), (">>", "\"me.out\"", "me.out"), ("|", "\"cat > me.out\"", "me.out"), (">", "\"me_\" . \"x\" . \".out\"", "me_x.out")])
+    form = r.choice(["subr", "subr", "func"])
+    if form == "subr":
+        prog = "subr w(str s) { print %s %s, s } call w(\"r\" . $id); end { call w(\"trailer\") }" % (redir, tgt)
+    else:
+        prog = "func w(str s): num { print %s %s, s; return 1 } $z = w(\"r\" . $id); end { @z = w(\"trailer\") }" % (redir, tgt)
+    pre = {name: "PRE-EXISTING LINE\n"} if r.chance(0.4) else {}
+    want = (pre.get(name, "") if redir == ">>" else "") + "".join("r%d\n" % (i + 1) for i in range(n)) + "trailer\n"
+    return {"kind": "main_and_end", "lru": 256, "ifmt": "dkvp", "ofmt": "dkvp", "pattern": "main+end", "recs": recs, "cseed": r.randint(1, 1 << 40), "batch": r.choice([None, 1, 2, 7]),
+            "nconf": 3 if tier == "quick" else 6, "pre": pre, "verbs": [["put", "-q", prog]], "args_tail": [], "target": name, "append": redir == ">>", "children": redir == "|"}
+
+
+def eval_main_and_end(case, chk):
+    vd = Verdict()
+    text = render(case["ifmt"], case["recs"])
+    files = {"input.dat": text.encode()}
+    for k, v in case["pre"].items():
+        files[k] = v.encode()
+    args = main_args(case)
+    # (computed from the records, which shrinking may have cut down)
+    want = (case["pre"].get(case["target"], "") if case["append"] else "") + "".join("r%s\n" % dict(rec)["id"] for rec in case["recs"]) + "trailer\n"
+    if case.get("configs") is None:
+        rng = Rng(case["cseed"], "cfg")
+        case["configs"] = [{"sched": random_sched(rng, None), "batch": rng.choice([case["batch"], 1, None]), "rtseed": rng.randint(1, 1 << 30), "knobs": {"lru": 256}}
+                           for _ in range(case["nconf"])]
+    for cfg in case["configs"]:
+        r = chk.pool.run1(mkspec(with_batch(args, cfg.get("batch")), sched=cfg["sched"], files=files, knobs=cfg["knobs"], rtseed=cfg.get("rtseed", 1), snapshot=True))
+        vd.runs.append(r)
+        cfgs = json.loads(json.dumps(cfg))
+        if r.status == "child-stall":
+            vd.skipped = "child-stall"
+            continue
+        if r.status != "exit":
+            vd.add("hang" if r.status in ("deadlock", "livelock") else r.status, status=r.status, config=cfgs, blocked=r.blocked[:10], text=r.panic_text[-500:])
+            break
+        if r.code != 0:
+            vd.add("fails", config=cfgs, code=r.code, stderr=r.stderr[:300].decode("utf-8", "replace"))
+            break
+        got = r.files.get(case["target"], (None, 0))[0]
+        if got != want.encode():
+            vd.add("target-content-wrong", config=cfgs, target=case["target"], main_and_end=True, got_len=len(got) if got is not None else None,
+                   want_len=len(want), got=(got or b"")[:200].decode("utf-8", "replace"), want=want[:200])
+            break
+    vd.notes["main_and_end_cases"] = 1
+    return vd
+
+
 def build_case(r, tier):
     if r.chance(0.05):
         return build_two_append(r, tier)
+    if r.chance(0.04):
+        return build_main_and_end(r, tier)
     cap = r.choice([2, 3, 5, 8, 256])
     if cap == 256:
         ntargets = r.choice([1, 2, 5, 12])
@@ -401,6 +455,8 @@ def tolerant_records(ofmt, data):
 def evaluate(case, chk):
     if case["kind"] == "two_append":
         return eval_two_append(case, chk)
+    if case["kind"] == "main_and_end":
+        return eval_main_and_end(case, chk)
     vd = Verdict()
     pool = chk.pool
     text = render(case["ifmt"], case["recs"])
@@ -553,8 +609,8 @@ def cases(rng, tier):
 
 
 def sample_of(case, verdict):
-    if case["kind"] == "two_append":
-        return {"kind": "two_append", "args": main_args(case), "records": len(case["recs"]), "pre_existing": sorted(case["pre"])}
+    if case["kind"] in ("two_append", "main_and_end"):
+        return {"kind": case["kind"], "args": main_args(case), "records": len(case["recs"]), "pre_existing": sorted(case["pre"])}
     tm, acc = target_map(case)
     return {"kind": case["kind"], "args": main_args(case), "lru": case["lru"], "targets": len(tm), "records": len(case["recs"]),
             "pattern": case["pattern"], "access_head": acc[:16], "pre_existing": sorted(case["pre"]),
